@@ -117,7 +117,7 @@ func (p *e4Peer) write(b []byte) bool {
 	if len(b) == 1 {
 		p.tr(">%02x", b[0])
 	} else {
-		p.tr(">blk[%d] %x", len(b), b[1:11])
+		p.tr(">blk[%d] %x", len(b), b[:min(len(b), 11)])
 	}
 	_ = p.conn.SetWriteDeadline(time.Now().Add(5 * time.Second))
 	_, err := p.conn.Write(b)
@@ -210,7 +210,7 @@ func (p *e4Peer) sendRaw(w []byte) byte {
 		if !granted {
 			continue
 		}
-		if !p.write(w) {
+		if len(w) > 0 && !p.write(w) {
 			return 'T'
 		}
 		for {
@@ -831,6 +831,74 @@ func (s *session) inboundReconnect(c *vh.Ctx, sentinelSys byte, scenario int) {
 	}
 }
 
+// inboundFaults: every error class of receiveBlock, on the IDLE line of the real line engine —
+// length character 0..9 and 255 (followed by whatever the sender goes on transmitting), too few
+// characters then silence (T1), no character at all after the grant (T2), a failing checksum.
+// Each must be answered by NAK and nothing else: the very next valid message on the SAME line
+// session is ACK'd and delivered, the connection stays Selected and never re-dials / re-listens
+// ("corrupt blocks never take the link down").
+func (s *session) inboundFaults(c *vh.Ctx, round int) {
+	r := c.Rng
+	type fault struct {
+		class string
+		w     []byte
+	}
+	good := func(tag byte) e4Block {
+		f := e4Fields{dev: s.dev, rbit: !s.equip, stream: 1 + r.Intn(8), fn: 1 + 2*r.Intn(60), num: 1, ebit: true,
+			sys: [4]byte{6, byte(round), tag, byte(r.Intn(256))}}
+		return e4Block{hdr: e4Encode(f), body: randBytes(c, r.Intn(10))}
+	}
+	carrier := e4Wire(good(0xF0))
+	ck := append([]byte(nil), carrier...)
+	ck[1+r.Intn(len(ck)-1)] ^= byte(1 << r.Intn(8))
+	faults := []fault{
+		{"illegal-length-low", append([]byte{byte(r.Intn(10))}, carrier[1:]...)},
+		{"illegal-length-255", append([]byte{255}, randBytes(c, r.Intn(30))...)},
+		{"illegal-length-alone", []byte{byte(r.Intn(10))}},
+		{"too-few-characters-T1", carrier[:1+r.Intn(len(carrier)-1)]},
+		{"checksum", ck},
+		{"no-character-T2", nil},
+	}
+	for k, ft := range faults {
+		c.Count("Y/idle-fault=" + ft.class)
+		ctxs := fmt.Sprintf("idle-line fault %s, equip=%v active=%v, transmission %s", ft.class, s.equip, s.active, hx(ft.w))
+		if res := s.peer.sendRaw(ft.w); res != 'N' {
+			c.Fail(fmt.Sprintf("a transmission receiveBlock must reject was answered %q, not NAK", res), ctxs)
+			return
+		}
+		base := s.deliveredCount()
+		g := good(byte(k))
+		if res := s.peer.sendRaw(e4Wire(g)); res != 'A' {
+			c.Fail(fmt.Sprintf("the valid block after a NAK'd transmission was answered %q, not ACK: a corrupt block took the line down", res), ctxs)
+			return
+		}
+		f0 := e4Decode(g.hdr)
+		want := []byte{byte(f0.dev >> 8), byte(f0.dev), byte(f0.stream), byte(f0.fn), 0, 0, f0.sys[0], f0.sys[1], f0.sys[2], f0.sys[3]}
+		want = append(want, g.body...)
+		ok := false
+		for deadline := time.Now().Add(5 * time.Second); time.Now().Before(deadline) && !ok; {
+			for _, d := range s.deliveredSince(base) {
+				ok = ok || string(d) == string(want)
+			}
+			if !ok {
+				time.Sleep(2 * time.Millisecond)
+			}
+		}
+		if !ok {
+			c.Fail("the valid message after a NAK'd transmission was ACK'd but never delivered", ctxs)
+		}
+		if st := s.conn.State(); st != hsms.SelectedState {
+			c.Fail(fmt.Sprintf("a corrupt block took the link down (state %v)", st), ctxs)
+			return
+		}
+		if len(s.newConns) != 0 || len(s.listeners) != 0 {
+			c.Fail("the connection re-dialled / re-listened after a corrupt block", ctxs)
+			return
+		}
+		s.peer.serve(20*time.Millisecond, 300*time.Millisecond) // S9Fx notices of an equipment-role connection
+	}
+}
+
 func e2e(c *vh.Ctx) {
 	type roleT struct{ equip, active bool }
 	roles := []roleT{{true, false}, {false, true}, {true, true}, {false, false}}
@@ -865,6 +933,7 @@ func e2e(c *vh.Ctx) {
 			c.Fail("cannot open a secs1 connection over net.Pipe", fmt.Sprintf("equip=%v active=%v: %v", ro.equip, ro.active, err))
 			continue
 		}
+		s2.inboundFaults(c, ri)
 		for i := 0; i < nR; i++ {
 			s2.inboundReconnect(c, byte(i), i%5)
 		}
